@@ -41,6 +41,12 @@ func vC20Scenario() {
 	if vBool("hastimeout") {
 		timeout = 40
 	}
+	// a NEGATIVE dial timeout: a budget that has already run out (time.Until(end) after the end):
+	// the dial timeout has elapsed before Dial starts
+	neg := vBool("negativetimeout")
+	if neg {
+		timeout = -1
+	}
 	silent := vBool("silentpeer")
 	partial := vBool("partialpeer") // a silent peer that first sends the status line and half a header line
 	vAssume(!partial || silent)
@@ -67,7 +73,7 @@ func vC20Scenario() {
 	// engine explores that interleaving anyway; the flag makes it deterministic on replay)
 	hold := vBool("holdwatcher")
 	vAssume(!hold || (!silent && ctxKind == 1 && cancelAt >= 0 && !late))
-	bounded := timeout > 0 || ctxKind >= 2 || cancelAt == -2 || cancelAt == 0 || (cancelAt == 1 && !late)
+	bounded := timeout != 0 || ctxKind >= 2 || cancelAt == -2 || cancelAt == 0 || (cancelAt == 1 && !late)
 	if blockWrite {
 		// the request write (#0) is the operation that never completes
 		bounded = timeout > 0 || ctxKind >= 2 || cancelAt == -2 || (cancelAt == 0 && !late)
@@ -77,6 +83,7 @@ func vC20Scenario() {
 	if silent && !bounded {
 		vAssume(false)
 	}
+	vAssume(!neg || (silent && !partial && !blockWrite && !useTLS && ctxKind <= 1 && cancelAt == -1 && !hold))
 	var ctx context.Context = context.Background()
 	var root *vCtx
 	if ctxKind != 0 {
@@ -158,7 +165,11 @@ func vC20Scenario() {
 	if !dialed {
 		// dial-phase cancellation: the context's error, no connection, nothing touched
 		vAssert(vAnd(err != nil, got == nil), "dial.cancelled_before_connecting_fails")
-		vAssert(vAnd(root != nil, err == context.Canceled), "dial.cancelled_before_connecting_reports_context_error")
+		if neg {
+			vAssert(err == context.DeadlineExceeded, "dial.elapsed_timeout_reports_deadline_exceeded")
+		} else {
+			vAssert(vAnd(root != nil, err == context.Canceled), "dial.cancelled_before_connecting_reports_context_error")
+		}
 		vAssert(conn.ops == 0, "dial.cancelled_before_connecting_touches_nothing")
 		return
 	}
